@@ -320,4 +320,12 @@ def r9_9(run):
     r6_3(run)
 
 
-RULES = [("R9.1", r9_1), ("R9.2", r9_2), ("R9.3", r9_3), ("R9.4", r9_4), ("R9.5", r9_5), ("R9.6", r9_6), ("R9.7", r9_7), ("R9.8", r9_8), ("R9.9", r9_9)]
+def r9_10(run):
+    """an element that is out of service is equivalent to its absence, also where a junction's value is shared among the elements
+    connected to it (the slack flow of a junction divided by the number of external grids): the multiplicity counts in-service
+    elements only -- shared with C04 R4.12 (keys of every counting grouping are rows selected by the in_service flag)"""
+    from .c04 import r4_12
+    r4_12(run)
+
+
+RULES = [("R9.1", r9_1), ("R9.2", r9_2), ("R9.3", r9_3), ("R9.4", r9_4), ("R9.5", r9_5), ("R9.6", r9_6), ("R9.7", r9_7), ("R9.8", r9_8), ("R9.9", r9_9), ("R9.10", r9_10)]
